@@ -37,6 +37,15 @@ func vsome(x *V) *V            { return &V{K: "some", X: x} }
 func vif(c int, x *V) *V       { return &V{K: "if", Code: c, X: x} }
 func vf(w int, bits uint64) *V { return &V{K: "f", W: w, Bits: bits} }
 
+func bign(dec string) *V {
+	n, ok := new(big.Int).SetString(dec, 10)
+	if !ok {
+		panic("bign " + dec)
+	}
+
+	return &V{K: "n", N: n}
+}
+
 var vnil = &V{K: "nil"}
 var vT, vF = &V{K: "T"}, &V{K: "F"}
 
@@ -115,5 +124,13 @@ func corpus() [][]string {
 			omit("st", st(-1, fld("q", slice(str)))), opt("p", ptr(st(-1, fld("z", boolT)))), omit("arr", arr(2, u(16)))),
 			vs(vnil, vnil, vnil, vnil, vf(64, 0), vs(vnil), vnil, vl(num(0), num(0))),
 			vs(vl(), vx(), &V{K: "m"}, num(0), vf(64, 1<<63), vs(vl()), vsome(vs(vF)), vl(num(0), num(1)))),
+		// instants outside the int64 nanosecond range: serializer.TimeToUint64 saturates (MaxInt64 from 2^63 ns on -
+		// the last representable second included -, 0 before the epoch), in plain, omitempty, pointer and element position
+		cse(st(-1, fld("a", timeT), omit("b", timeT), fld("c", ptr(timeT)), fld("d", slice(timeT)), fld("e", mp(str, timeT))),
+			vs(bign("9223372036854775808"), bign("9223372036854775807"), vsome(bign("9223372036999999999")),
+				vl(bign("9223372037000000000"), bign("18446744073709551616"), bign("253402300799000000000")),
+				&V{K: "m", M: [][2]*V{{vstr("y2300"), bign("10413792000000000000")}, {vstr("u62"), bign("4611686018427387904000000000")}}}),
+			vs(bign("-9223372036854775809"), bign("-62135596799999999999"), vsome(bign("-4611686018427387904000000000")),
+				vl(bign("-1"), num(0)), &V{K: "m", M: [][2]*V{{vstr("y-185"), bign("-68000000000000000000")}}})),
 	}
 }
